@@ -23,6 +23,7 @@ META = {
     'assumptions': ['ledger: the harness records every declaration it makes together with the scale its definition '
                     'denotes, computed from the declared factors only'],
 }
+META['bounds'].append('types with equal / long common names in both declaration orders (3 name pairs)')
 
 
 def setup(mode):
